@@ -31,7 +31,7 @@ def strip_warn(dump: str) -> str:
 
 def variants(ctx, out):
     rng = ctx.sub("variants")
-    prof = gen.Profile(max_tracks=4, garbage=0.05, unknown_sections=0.0, shuffle_sections=0.0, crlf=0.0)
+    prof = gen.Profile(max_tracks=4, garbage=0.0, unknown_sections=0.0, shuffle_sections=0.0, crlf=0.0)
     items = []
     headers = [(i, d) for i in range(10) for d in range(4)]
     rng.shuffle(headers)
@@ -64,7 +64,7 @@ def variants(ctx, out):
         out.case("V" + fw.h(base.text), len(base.sections) >= 4, None, tags=["variants", common.status(gen.parse_dump(xb))[:14]])
         out.traces += 3
         for nm, x, y, t in (("base", xb, yb, base.text), ("permuted", xp, yp, perm.text), ("crlf", xc, yc, crlf.text)):
-            if x != y:
+            if common.framing_proj(x) != common.framing_proj(y):
                 p_, q_ = fw.first_diff(x, y)
                 out.corr_mismatch(f"{nm} chart", common.chart_replay(t), impl=p_, model=q_)
         if xb.startswith("E "):
@@ -148,7 +148,7 @@ def files(ctx, out):
     mod = driver.run_parallel(reqs)
     for (nm, x, rp), m in zip(meta, mod):
         out.traces += 1
-        if x != m:
+        if common.framing_proj(x) != common.framing_proj(m):
             p_, q_ = fw.first_diff(x, m)
             out.corr_mismatch(f"{nm} variant", rp, impl=p_, model=q_)
 
@@ -187,7 +187,7 @@ def malformed(ctx, out):
     for (t, _), x, y in zip(cases, a, b):
         out.case("X" + fw.h(t), True, None, tags=["malformed", x.split("|")[0][:22]])
         out.traces += 1
-        if x != y:
+        if common.framing_proj(x) != common.framing_proj(y):
             p_, q_ = fw.first_diff(x, y)
             out.corr_mismatch("malformed framing", common.chart_replay(t), impl=p_, model=q_)
 
